@@ -68,6 +68,7 @@ type World struct {
 	LagView map[string]map[string]*v1.Node
 	Order   map[string][]string
 	podSeq  int
+	podSeqG map[string]int
 	lastGet map[string]*v1.Node
 	liveNewScan bool
 	Live        bool            // the controller's own loop (RunForever) drives the scans: the listers refresh themselves at each scan start
@@ -357,7 +358,11 @@ func qMem(u int) resource.Quantity { return *resource.NewQuantity(int64(u)*MemUn
 // way its request is spread over containers / init containers / overhead vary with k.
 func (w *World) MakePod(g string, p Pod, k int) *v1.Pod {
 	w.podSeq++
-	pod := &v1.Pod{ObjectMeta: metav1.ObjectMeta{Name: fmt.Sprintf("p%d", w.podSeq), Namespace: NS,
+	if w.podSeqG == nil {
+		w.podSeqG = map[string]int{}
+	}
+	w.podSeqG[g]++ // names are numbered per group, so that what happens in one group never renames (or reorders) another group's pods
+	pod := &v1.Pod{ObjectMeta: metav1.ObjectMeta{Name: fmt.Sprintf("p-%s-%05d", g, w.podSeqG[g]), Namespace: NS,
 		Annotations: map[string]string{"verif/group": g, "verif/cpu": strconv.Itoa(p.Cpu), "verif/mem": strconv.Itoa(p.Mem)},
 		OwnerReferences: []metav1.OwnerReference{{Kind: "ReplicaSet", Name: "rs"}}},
 		Spec: v1.PodSpec{NodeName: p.Node}}
@@ -953,6 +958,22 @@ func (w *World) AsgSetDesired(g string, d int) bool {
 
 func (w *World) PodArrive(g string, cpu, mem int) {
 	_ = w.K.Tracker().Add(w.MakePod(g, Pod{Cpu: cpu, Mem: mem, Pending: true}, w.podSeq))
+}
+
+// PodReplace deletes one pod of group g and creates a different pod under the SAME namespace/name, counting for group g2 with
+// other requests (a re-submitted job): nothing may remember the old pod by its name.
+func (w *World) PodReplace(g, g2 string, cpu, mem int) bool {
+	ps := w.groupPods(g, func(p *v1.Pod) bool { return true })
+	if len(ps) == 0 {
+		return false
+	}
+	old := ps[len(ps)/2]
+	if w.K.Tracker().Delete(podGVR, NS, old.Name) != nil {
+		return false
+	}
+	np := w.MakePod(g2, Pod{Cpu: cpu, Mem: mem, Pending: true}, cpu+mem)
+	np.Name = old.Name
+	return w.K.Tracker().Add(np) == nil
 }
 
 // groupPods returns the group's abstract pods matching the filter, by name order.
